@@ -113,6 +113,11 @@ def extract(tree):
     flags = {}
     # ---- janet_thread_chan_cb
     cb = func_body(ev, "janet_thread_chan_cb")
+    # the local that holds the (still packed) item: `Janet x = msg.argj;` - whatever it is called
+    mxv = re.search(r"\bJanet\s+(\w+)\s*=\s*msg\.argj\s*;", cb)
+    if not mxv:
+        raise ExtractError("janet_thread_chan_cb: `Janet <x> = msg.argj;` not found")
+    xv = re.escape(mxv.group(1))
     flags["cbChecksSchedId"] = bool(re.search(r"if\s*\(\s*fiber->sched_id\s*==\s*sched_id\s*\)", cb))
     m = re.search(r"if\s*\(\s*is_read\s*\)\s*\{", cb)
     if not m:
@@ -120,7 +125,7 @@ def extract(tree):
     i = m.end() - 1
     rd = cb[i:match_brace(cb, i)]
     mpop = re.search(r"if\s*\(\s*!\s*janet_q_pop\s*\(\s*&channel->read_pending\s*,\s*&reader", rd)
-    flags["redispatchToNext"] = bool(mpop and re.search(r"msg\.argj\s*=\s*x\s*;[^}]*janet_ev_post_event\s*\(\s*vm\s*,\s*janet_thread_chan_cb", rd, re.S))
+    flags["redispatchToNext"] = bool(mpop and re.search(r"msg\.argj\s*=\s*%s\s*;[^}]*janet_ev_post_event\s*\(\s*vm\s*,\s*janet_thread_chan_cb" % xv, rd, re.S))
     # the forwarded message must carry the NEXT waiter's own sched_id (reader.sched_id / writer.sched_id)
     wr_m = re.search(r"if\s*\(\s*!\s*janet_q_pop\s*\(\s*&channel->write_pending\s*,\s*&writer[^{]*\{", cb)
     own_w = False
@@ -143,11 +148,11 @@ def extract(tree):
         me = re.match(r"\s*else\s*\{", rest)
         if me:
             eb = rest[me.end() - 1:match_brace(rest, me.end() - 1)]
-            mq = re.search(r"janet_q_push(_head)?\s*\(\s*&channel->items\s*,\s*&x\b", eb)
+            mq = re.search(r"janet_q_push(_head)?\s*\(\s*&channel->items\s*,\s*&%s\b" % xv, eb)
             requeue = bool(mq)
             head = bool(mq and mq.group(1))
     else:
-        mq = re.search(r"janet_q_push(_head)?\s*\(\s*&channel->items\s*,\s*&x\b", rd)
+        mq = re.search(r"janet_q_push(_head)?\s*\(\s*&channel->items\s*,\s*&%s\b" % xv, rd)
         requeue, head = bool(mq), bool(mq and mq.group(1))
     flags["requeueOnNoReader"] = requeue
     flags["requeueAtHead"] = head
@@ -222,13 +227,20 @@ def extract(tree):
     # JANET_MARSHAL_DECREF when is_cleanup (checked below as part of unpackUsesUnmarshalUnsafe's pattern, repeated here);
     # the DECREF branch of the LB_THREADED_ABSTRACT case decrements u.ptr and creates no table entry
     dei = func_body(ev, "janet_chan_deinit")
-    mloop = re.search(r"while\s*\(\s*!\s*janet_q_pop\s*\(\s*&chan->items\s*,\s*&(\w+)\s*,\s*sizeof\s*\(\s*\1\s*\)\s*\)\s*\)\s*\{", dei)
+    # structural: the drain loop is a DIRECT child statement of the threaded branch (not under a further condition), its body is
+    # exactly one call janet_chan_unpack(chan, &<item>, 1)
+    from . import threadlock as _tl
     loop_ok = False
-    if mloop:
-        lb = dei[mloop.end() - 1:match_brace(dei, mloop.end() - 1)]
-        stmts = [x.strip() for x in lb.strip()[1:-1].split(";") if x.strip()]
-        # exactly: (optionally a (void) cast of the result) janet_chan_unpack(chan, &item, 1)
-        loop_ok = len(stmts) == 1 and bool(re.fullmatch(r"(?:\(\s*void\s*\)\s*)?janet_chan_unpack\s*\(\s*chan\s*,\s*&%s\s*,\s*1\s*\)" % mloop.group(1), stmts[0]))
+    top = _tl._nodes(dei.strip()[1:-1])
+    thr = [n for n in top if n[0] == "if" and re.fullmatch(r"\s*janet_chan_is_threaded\s*\(\s*chan\s*\)\s*", n[1])]
+    if len(thr) == 1 and thr[0][2] is not None and thr[0][2][0] == "block":
+        loops = [n for n in thr[0][2][1] if n[0] == "loop" and re.search(r"janet_q_pop\s*\(\s*&chan->items\b", n[1])]
+        if len(loops) == 1:
+            mh = re.fullmatch(r"\s*!\s*janet_q_pop\s*\(\s*&chan->items\s*,\s*&(\w+)\s*,\s*sizeof\s*\(\s*(?:\1|Janet)\s*\)\s*\)\s*", loops[0][1])
+            body = loops[0][2]
+            stmts = body[1] if body is not None and body[0] == "block" else ([body] if body is not None else [])
+            if mh and len(stmts) == 1 and stmts[0][0] == "stmt":
+                loop_ok = bool(re.fullmatch(r"(?:\(\s*void\s*\)\s*)?janet_chan_unpack\s*\(\s*chan\s*,\s*&%s\s*,\s*1\s*\)\s*;" % mh.group(1), stmts[0][1].strip()))
     upk = func_body(ev, "janet_chan_unpack")
     cleanup_flag = bool(re.search(r"is_cleanup\s*\?\s*\(\s*JANET_MARSHAL_UNSAFE\s*\|\s*JANET_MARSHAL_DECREF\s*\)\s*:\s*JANET_MARSHAL_UNSAFE", upk)
                         and re.search(r"janet_unmarshal\s*\(\s*buf->data\s*,\s*buf->count\s*,\s*flags\s*,", upk))
@@ -277,7 +289,7 @@ def extract(tree):
         and re.search(r"pending\.fiber\s*=\s*janet_vm\.root_fiber\s*,\s*pending\.sched_id\s*=\s*janet_vm\.root_fiber->sched_id\s*,", push))
     # the accepting branch of the callback schedules the fiber with the unpacked item (READ) / the channel (WRITE)
     flags["cbSchedulesFiber"] = bool(
-        re.search(r"mode\s*==\s*JANET_CP_MODE_READ\s*\)\s*\{\s*janet_assert\s*\(\s*!\s*janet_chan_unpack\s*\(\s*channel\s*,\s*&x\s*,\s*0\s*\)[^;]*;\s*janet_schedule\s*\(\s*fiber\s*,\s*x\s*\)\s*;", cb)
+        re.search(r"mode\s*==\s*JANET_CP_MODE_READ\s*\)\s*\{\s*janet_assert\s*\(\s*!\s*janet_chan_unpack\s*\(\s*channel\s*,\s*&%s\s*,\s*0\s*\)[^;]*;\s*janet_schedule\s*\(\s*fiber\s*,\s*%s\s*\)\s*;" % (xv, xv), cb)
         and re.search(r"mode\s*==\s*JANET_CP_MODE_WRITE\s*\)\s*\{\s*janet_schedule\s*\(\s*fiber\s*,\s*janet_wrap_channel\s*\(\s*channel\s*\)\s*\)\s*;", cb))
     # ---- ev/thread hand-over (Thread/Spawn.lean): write plan of cfun_ev_thread, read plan of janet_go_thread_subr
     evt = _corefn_body(ev, "cfun_ev_thread")
